@@ -71,11 +71,15 @@ func descN(v ssa.Value, depth int) string {
 			if src := allocSource(x); src != nil {
 				return descN(src, d)
 			}
+			if x.Comment == "new" {
+				// new(T) followed by field assignments and &T{…} are the same construction
+				return "$complit"
+			}
 			return "$" + x.Comment
 		}
 		return "new"
 	case *ssa.FieldAddr:
-		return descN(x.X, d) + "." + fieldName(x.X.Type(), x.Field)
+		return descN(derefBase(x.X), d) + "." + fieldName(x.X.Type(), x.Field)
 	case *ssa.Field:
 		return descN(x.X, d) + "." + fieldName(x.X.Type(), x.Field)
 	case *ssa.UnOp:
@@ -183,6 +187,29 @@ func descN(v ssa.Value, depth int) string {
 		return "range(" + descN(x.X, d) + ")"
 	}
 	return fmt.Sprintf("%T", v)
+}
+
+// derefBase: a pointer that is dereferenced is not nil.  For `var p *T; if c { p = X }` the
+// merge of nil and X is X wherever a field of it is accessed (the nil case panics before).
+func derefBase(v ssa.Value) ssa.Value {
+	ph, ok := v.(*ssa.Phi)
+	if !ok {
+		return v
+	}
+	var only ssa.Value
+	for _, e := range ph.Edges {
+		if IsNilConst(e) || e == ssa.Value(ph) {
+			continue
+		}
+		if only != nil && only != e {
+			return v
+		}
+		only = e
+	}
+	if only == nil {
+		return v
+	}
+	return only
 }
 
 // paramName gives a position-based canonical name, so that renaming a receiver or a
@@ -632,6 +659,29 @@ func (p *Prog) GuardStrings(in ssa.Instruction) []string {
 		}
 		for _, extra := range p.boolHelperFacts(a) {
 			add(extra)
+		}
+		// `var ok bool; if pre { _, ok = lookup }; if ok {…}`: a flag that is false unless one
+		// test set it.  Where the flag holds, that test held; where it does not, the test
+		// failed or was never made ("maybe-not:" — for rules about what happens on a miss).
+		if ph, isPhi := a.Cond.(*ssa.Phi); isPhi {
+			var only ssa.Value
+			okShape := true
+			for _, e := range ph.Edges {
+				if k, isC := e.(*ssa.Const); isC && k.Value != nil && k.Value.Kind() == constant.Bool && !constant.BoolVal(k.Value) {
+					continue
+				}
+				if only != nil && only != e {
+					okShape = false
+				}
+				only = e
+			}
+			if okShape && only != nil {
+				if a.Pol {
+					add(NormAtom(only, true))
+				} else {
+					add("maybe-not:" + NormAtom(only, true))
+				}
+			}
 		}
 	}
 	return out
